@@ -28,7 +28,7 @@ Theorem C13_default_polynomial_unit : poly_unit gen_default_params.
 Proof. apply poly_unitb_sound. vm_compute. reflexivity. Qed.
 
 (** hence, on a chain started from the default genesis, every history of toggles, day-epoch ends and other
-    identifiers' epoch ends (no parameter edits) follows the closed-form schedule *)
+    identifiers' epoch ends (no edits of the params) follows the closed-form schedule *)
 Fixpoint no_edits (ops : list op) (e : Z) : Prop :=
   match ops with
   | [] => True
